@@ -201,6 +201,7 @@ impl GroupScen {
             self.heights.clone()
         };
         hs.insert(self.h0.saturating_sub(1));
+        hs.insert(0); // height 0 is a height like any other, not a synonym of "latest"
         hs.insert(self.env.block.height);
         hs.insert(self.env.block.height + 1);
         hs.into_iter().collect()
@@ -340,7 +341,7 @@ impl GroupScen {
 
     fn gen_addr(&self, rng: &mut Rng, invalid_in: u64) -> String {
         if rng.chance(1, invalid_in) {
-            format!("-{INVALID_ADDR}")
+            format!("-{}", invalid_addr(rng, &self.pool))
         } else {
             format!("+{}", rng.pick(&self.pool))
         }
@@ -368,7 +369,7 @@ impl GroupScen {
     fn gen_inst(&self, rng: &mut Rng) -> String {
         let admin = match rng.below(30) {
             0 | 1 => "-".to_string(),
-            2 => format!("-{INVALID_ADDR}"),
+            2 => format!("-{}", invalid_addr(rng, &self.pool)),
             3..=20 => format!("+{}", self.pool[0]),
             _ => format!("+{}", rng.pick(&self.pool)),
         };
@@ -404,7 +405,7 @@ impl GroupScen {
             0 | 1 => "-".to_string(),
             2 => format!("+{}", rng.pick(&self.pool)),
             3 => "-cosmwasm1m".to_string(),
-            4 if rng.chance(1, 2) => format!("-{INVALID_ADDR}"),
+            4 if rng.chance(1, 2) => format!("-{}", invalid_addr(rng, &self.pool)),
             _ if !members.is_empty() => format!("+{}", rng.pick(&members).addr),
             _ => "-".to_string(),
         };
@@ -435,7 +436,7 @@ impl GroupScen {
                 };
                 let after = match rng.below(6) {
                     0 | 1 => "-".to_string(),
-                    2 => format!("-{INVALID_ADDR}"),
+                    2 => format!("-{}", invalid_addr(rng, &self.pool)),
                     3 => "-cosmwasm1m".to_string(),
                     _ => format!("+{}", rng.pick(&self.pool)),
                 };
@@ -529,7 +530,7 @@ impl Scenario for GroupScen {
         } else if k < 70 {
             let new = match rng.below(24) {
                 0 => "-".to_string(),
-                1 => format!("-{INVALID_ADDR}"),
+                1 => format!("-{}", invalid_addr(rng, &self.pool)),
                 2..=5 => format!("+{snd}"),
                 _ => format!("+{}", rng.pick(&self.pool)),
             };
